@@ -1687,7 +1687,10 @@ impl Node {
 
     /// Return the remaining time to live.
     pub fn ttl(&self) -> Duration {
-        self.valid_for - self.created_at.elapsed()
+        // A node can be looked at after its time is up (immediately so if
+        // it was built from records with a TTL of zero): nothing is left
+        // then, rather than a negative duration.
+        self.valid_for.saturating_sub(self.created_at.elapsed())
     }
 }
 
